@@ -246,12 +246,9 @@ Theorem decision_matches_bundle P texts l a d b :
 Proof.
   unfold compile. destruct (cut_point l a) as [cut|]; [|discriminate]. intros H. inversion H as [E]. clear H.
   unfold compile_with in E. set (h := hierarchy (p_fixed P) cut (p_max_refs P) l) in E.
-  destruct h as [|c [|c2 r]]; inversion E; subst; cbn [d_strategy b_strategy d_ckpts b_items strategy_of length firstn summary_refs map];
-    repeat split; try reflexivity.
-  change (ISummary (ck_art c) (ck_to c) :: ISummary (ck_art c2) (ck_to c2) :: map (fun c0 => ISummary (ck_art c0) (ck_to c0)) r)
-    with (summary_refs (c :: c2 :: r)).
-  change (S (S (length r))) with (length (c :: c2 :: r)).
-  apply firstn_map_app.
+  destruct h as [|c [|c2 r]]; cbv beta iota in E; injection E as Ed Eb; subst d b;
+    cbn [d_strategy b_strategy d_ckpts b_items strategy_of]; (repeat split; try reflexivity).
+  exact (firstn_map_app (fun c0 => ISummary (ck_art c0) (ck_to c0)) (c :: c2 :: r) _).
 Qed.
 
 (* ------------------------------------------------------------------ pure function of the prefix up to the cut *)
@@ -312,6 +309,139 @@ Lemma compile_with_upto P texts l c a : incr l -> p_fixed P = true ->
   compile_with P texts (upto c l) (upto c l) c a = compile_with P texts l l c a.
 Proof.
   intros S Fx. unfold compile_with. rewrite Fx, hierarchy_upto, latest_any_upto, ended_runs_upto by exact S.
-  now rewrite select_recent_upto.
-  (* the remaining branches use select_recent_after *)
+  rewrite select_recent_upto.
+  destruct (hierarchy true c (p_max_refs P) l) as [|k [|k2 r]]; [reflexivity| |]; now rewrite select_recent_after_upto.
 Qed.
+
+(* ---- the cut point of the prefix up to the cut is the cut *)
+Lemma find_none_intro {A} (p : A -> bool) (l : list A) : (forall x, In x l -> p x = false) -> find p l = None.
+Proof.
+  induction l as [|x l IH]; [reflexivity|]. intros H. cbn [find].
+  rewrite (H x (or_introl eq_refl)). apply IH. intros y Y. apply H. now right.
+Qed.
+
+Lemma find_first_incr (p : frame -> bool) l n : incr l -> find p l = Some n ->
+  forall g, In g l -> p g = true -> fseq n <= fseq g.
+Proof.
+  induction l as [|f r IH]; [discriminate|]. intros [F S]. cbn [find]. destruct (p f) eqn:Pf.
+  - intros E g [<-|G] _; inversion E; subst; [lia|]. rewrite Forall_forall in F. specialize (F g G). lia.
+  - intros E g [<-|G] Pg; [congruence|]. eapply IH; eauto.
+Qed.
+
+Lemma upto_head b c l : contig_from b l = true -> l <> [] -> b <= c -> c <= head_seq l ->
+  head_seq (upto c l) = c /\ upto c l <> [].
+Proof.
+  revert b. induction l as [|f r IH]; intros b C NE Lo Hi; [congruence|].
+  cbn [contig_from] in C. apply andb_true_iff in C. destruct C as [E C]. apply N.eqb_eq in E.
+  unfold upto. cbn [filter]. fold (upto c r). replace (fseq f <=? c) with true by lia.
+  destruct r as [|g r'].
+  - cbn. unfold head_seq in *. cbn in *. split; [lia|discriminate].
+  - rewrite head_seq_cons in Hi. destruct (N.eq_dec c b) as [->|Ne].
+    + rewrite upto_all_above; [unfold head_seq; cbn; split; [lia|discriminate]|].
+      pose proof (contig_bounds _ _ C) as B. eapply Forall_impl; [|exact B]. cbn. intros; lia.
+    + destruct (IH (b + 1) C) as [H1 H2]; [discriminate|lia|exact Hi|].
+      destruct (upto c (g :: r')) as [|x xs] eqn:U; [congruence|].
+      rewrite head_seq_cons. split; [exact H1|discriminate].
+Qed.
+
+Lemma upto_all_below c l : (forall f, In f l -> fseq f <= c) -> upto c l = l.
+Proof.
+  induction l as [|f r IH]; [reflexivity|]. intros H. unfold upto. cbn [filter]. fold (upto c r).
+  pose proof (H f (or_introl eq_refl)). replace (fseq f <=? c) with true by lia.
+  f_equal. apply IH. intros g G. apply H. now right.
+Qed.
+
+Lemma cut_spec_upto l a c : valid_log l = true -> cut_spec l a = Some c -> cut_spec (upto c l) a = Some c.
+Proof.
+  intros V H. pose proof (valid_incr l V) as S. unfold cut_spec in H.
+  destruct (existsb (is_anchor a) l) eqn:E; [|discriminate].
+  destruct (existsb_anchor_in _ _ E) as (fa & Ia & Ma & Ea).
+  destruct (find (fun f => is_msg f && (a <? fseq f)) l) as [n|] eqn:Fd.
+  - inversion H as [Hc]. clear H.
+    pose proof (find_some _ _ Fd) as [In_n Pn]. apply andb_true_iff in Pn. destruct Pn as [Mn Ln].
+    unfold cut_spec.
+    assert (Ex : existsb (is_anchor a) (upto (fseq n - 1) l) = true).
+    { apply existsb_exists. exists fa. split.
+      - unfold upto. apply filter_In. split; [exact Ia|]. lia.
+      - unfold is_anchor. rewrite Ma. cbn. lia. }
+    rewrite Ex.
+    rewrite find_none_intro.
+    + f_equal. destruct l as [|f0 l0]; [destruct Ia|].
+      apply (upto_head 0 (fseq n - 1) (f0 :: l0) V); [discriminate|lia|].
+      pose proof (head_seq_ge _ S n In_n). lia.
+    + intros x X. unfold upto in X. apply filter_In in X. destruct X as [X Lx].
+      destruct (is_msg x && (a <? fseq x)) eqn:Px; [|reflexivity].
+      pose proof (find_first_incr _ _ _ S Fd x X Px). lia.
+  - inversion H as [Hc]. clear H. rewrite upto_all_below.
+    + unfold cut_spec. now rewrite E, Fd.
+    + intros f I. apply head_seq_ge; assumption.
+Qed.
+
+Theorem pure_up_to_cut P texts l a c :
+  valid_log l = true -> p_fixed P = true -> cut_point l a = Some c ->
+  compile P texts (upto c l) a = compile P texts l a.
+Proof.
+  intros V Fx H. pose proof (valid_incr l V) as S.
+  assert (Su : incr (upto c l)) by (apply incr_filter; exact S).
+  unfold compile. rewrite H. rewrite (cut_point_spec _ a Su).
+  rewrite (cut_point_spec l a S) in H. rewrite (cut_spec_upto l a c V H).
+  f_equal. apply compile_with_upto; assumption.
+Qed.
+
+(* ---- frames appended after the cut *)
+Lemma contig_app_l b l x : contig_from b (l ++ x) = true -> contig_from b l = true.
+Proof.
+  revert b. induction l as [|f r IH]; intros b; [reflexivity|]. cbn [app contig_from].
+  intros H. apply andb_true_iff in H. destruct H as [E C]. rewrite E. cbn. eapply IH; exact C.
+Qed.
+
+Lemma upto_app c a b : upto c (a ++ b) = upto c a ++ upto c b.
+Proof. unfold upto. apply filter_app. Qed.
+
+Theorem ignores_after_cut P texts l later a g :
+  valid_log (l ++ later) = true -> p_fixed P = true ->
+  existsb (is_anchor a) l = true ->
+  find (fun f => is_msg f && (a <? fseq f)) l = Some g ->
+  compile P texts (l ++ later) a = compile P texts l a.
+Proof.
+  intros V Fx Ea Fg.
+  assert (Vl : valid_log l = true) by (eapply contig_app_l; exact V).
+  pose proof (valid_incr _ V) as S. pose proof (valid_incr _ Vl) as Sl.
+  set (c := fseq g - 1).
+  assert (C1 : cut_point l a = Some c).
+  { rewrite (cut_point_spec l a Sl). unfold cut_spec. now rewrite Ea, Fg. }
+  assert (C2 : cut_point (l ++ later) a = Some c).
+  { rewrite (cut_point_spec _ a S). unfold cut_spec. rewrite existsb_app, Ea. cbn [orb].
+    now rewrite find_app', Fg. }
+  rewrite <- (pure_up_to_cut P texts _ a c V Fx C2), <- (pure_up_to_cut P texts _ a c Vl Fx C1).
+  rewrite upto_app. rewrite (upto_all_above c later); [now rewrite app_nil_r|].
+  destruct (incr_app_inv _ _ S) as (_ & _ & L). apply Forall_forall. intros y Y.
+  pose proof (find_some _ _ Fg) as [Ig _]. specialize (L g y Ig Y). unfold c. lia.
+Qed.
+
+(* ---- S9: with the visibility rule of the code before the repair, a checkpoint frame appended after
+   the cut changes the bundle *)
+Definition mkf (s : N) (b : body) : frame := {| fseq := s; fb := b |}.
+Definition s9_log : log := [mkf 0 BOther; mkf 1 BMsg; mkf 2 BMsg; mkf 3 BMsg].
+Definition s9_later : log := [mkf 4 (BCkpt true 1 0)].
+Definition unfixed_params : params := {| p_limit := 16; p_max_refs := 3; p_fixed := false |}.
+Definition fixed_params : params := {| p_limit := 16; p_max_refs := 3; p_fixed := true |}.
+Definition no_texts : N -> N := fun _ => 0.
+
+Lemma late_checkpoint_refuted :
+  exists l later a g,
+    valid_log (l ++ later) = true /\ existsb (is_anchor a) l = true
+    /\ find (fun f => is_msg f && (a <? fseq f)) l = Some g
+    /\ compile unfixed_params no_texts (l ++ later) a <> compile unfixed_params no_texts l a.
+Proof.
+  exists s9_log, s9_later, 2, (mkf 3 BMsg). repeat split; try (vm_compute; reflexivity).
+  vm_compute. discriminate.
+Qed.
+
+(* the hypotheses of ignores_after_cut are satisfiable (the same thread, repaired rule) *)
+Lemma ignores_after_cut_example :
+  valid_log (s9_log ++ s9_later) = true /\ existsb (is_anchor 2) s9_log = true
+  /\ find (fun f => is_msg f && (2 <? fseq f)) s9_log = Some (mkf 3 BMsg)
+  /\ compile fixed_params no_texts (s9_log ++ s9_later) 2 = compile fixed_params no_texts s9_log 2
+  /\ compile fixed_params no_texts s9_log 2 <> None.
+Proof. repeat split; try (vm_compute; reflexivity). vm_compute. discriminate. Qed.
